@@ -463,3 +463,108 @@ Proof.
   eapply exec_straight_local; eauto using rel_frame. apply local_x_mov. reflexivity.
 Qed.
 End Sim2.
+
+(* ================= Substitute ================= *)
+(* the machine side: the new environment, entry by entry *)
+Lemma lookups_nth (e : env) : forall xs vs j x,
+  lookups e xs = Some vs -> nth_error xs j = Some x -> exists v, nth_error vs j = Some v /\ lookup_id e x = Some v.
+Proof.
+  induction xs as [|x0 xs IH]; intros vs j x H Hj; [destruct j; discriminate|].
+  cbn [lookups] in H. destruct (lookup_id e x0) as [v0|] eqn:L0; [|discriminate].
+  destruct (lookups e xs) as [vr|] eqn:LR; [|discriminate]. inversion H; subst vs.
+  destruct j as [|j]; cbn in Hj |- *.
+  - inversion Hj; subst. eauto.
+  - eapply IH; eauto.
+Qed.
+Lemma bind_nth : forall (xs : list ident) (vs : list value) (e' : env) j x v,
+  bind xs vs = Some e' -> nth_error e' j = Some (x, v) -> nth_error xs j = Some x /\ nth_error vs j = Some v.
+Proof.
+  induction xs as [|x0 xs IH]; intros [|v0 vs] e' j x v H Hj; cbn [bind] in H; try discriminate.
+  - inversion H; subst. destruct j; discriminate.
+  - destruct (bind xs vs) as [er|] eqn:B; [|discriminate]. inversion H; subst e'.
+    destruct j as [|j]; cbn in Hj |- *.
+    + inversion Hj; subst. auto.
+    + eapply IH; eauto.
+Qed.
+Lemma bind_ids : forall (xs : list ident) (vs : list value) (e' : env),
+  bind xs vs = Some e' -> map fst e' = xs.
+Proof.
+  induction xs as [|x0 xs IH]; intros [|v0 vs] e' H; cbn [bind] in H; try discriminate.
+  - now inversion H.
+  - destruct (bind xs vs) as [er|] eqn:B; [|discriminate]. inversion H; subst e'. cbn. f_equal. eauto.
+Qed.
+
+(* in the integer fragment no reference count is touched *)
+Lemma cwc_int tm c : forall lc,
+  (forall b tg, In (b, tg) tm -> bchi b = Ext) -> code_weakening_contraction x86_backend tm c lc = Ok ([], lc).
+Proof.
+  induction tm as [|[b tg] tm IH]; intros lc H; cbn [code_weakening_contraction]; [reflexivity|].
+  rewrite (H b tg (or_introl eq_refl)). apply IH. intros b' tg' Hin. apply (H b' tg'). now right.
+Qed.
+Lemma ctx_int_nth c i b : ctx_int c = true -> nth_error c i = Some b -> bchi b = Ext /\ bty b = I64.
+Proof.
+  intros H Hn. unfold ctx_int in H. rewrite forallb_forall in H. specialize (H b (nth_error_In _ _ Hn)).
+  unfold is_int_binding in H. destruct (bchi b), (bty b); try discriminate; auto.
+Qed.
+
+Section Sim3.
+Variable im : image.
+
+Theorem sim_substitute c e s sp re vs e' c1 lc lc1 c2 :
+  rel c e s sp -> ctx_int c = true -> NoDup (new_ids re) ->
+  lookups e (map snd re) = Some vs -> bind (map (fun r => bvar (fst r)) re) vs = Some e' ->
+  code_weakening_contraction x86_backend (transpose re c) c lc = Ok (c1, lc1) ->
+  code_exchange x86_backend (transpose re c) c (map fst re) = Ok c2 ->
+  c1 = [] /\ lc1 = lc /\
+  exists s', exec_straight im c2 s = Some s' /\ rel (map fst re) e' s' sp /\ frame_eq s s' sp.
+Proof.
+  intros R CI NDn LK BD WC CE.
+  pose proof (rel_nodup _ _ _ _ R) as NDc.
+  (* no reference counts *)
+  rewrite cwc_int in WC.
+  2:{ intros b tg Hin. apply (In_transpose re c b tg (NoDup_map_inv _ _ NDc)) in Hin as (Hin & _).
+      apply In_nth_error in Hin as (i & Hi). apply (ctx_int_nth c i b CI Hi). }
+  inversion WC; subst c1 lc1. split; [reflexivity|]. split; [reflexivity|].
+  (* the parallel moves *)
+  unfold code_exchange in CE.
+  destruct (connections x86_backend (transpose re c) c (map fst re)) as [am|] eqn:CN; cbn [rbind] in CE; [|discriminate].
+  destruct (transpose_connections_indeg1 x86_backend x86_backend_ok c re am NDc NDn CN) as (ID & NT & SRT & KEYS).
+  pose proof (connections_edges x86_backend x86_backend_ok c re am NDc NDn CN) as EDG.
+  assert (VTam : forall t, In t (map fst am) \/ In t (all_targets xtemp am) -> var_temp t).
+  { intros t [Hk|Ht].
+    - destruct (KEYS t Hk) as (i & bi & n & _ & _ & Hp). destruct (xtpos_var_temp n i t Hp); tauto.
+    - unfold all_targets in Ht. apply in_flat_map in Ht as ([k ts] & Hin & Ht). cbn [snd] in Ht.
+      assert (edge xtemp xeqb am k t) as E.
+      { exists ts. split; [|exact Ht]. apply lookup_of_In; auto.
+        apply (sorted_nodup xtemp_compare (cmp_eq x86_backend x86_backend_ok)). exact SRT. }
+      apply EDG in E as (i & j & bi & pj & n & _ & _ & _ & _ & _ & Hb). destruct (xtpos_var_temp n j t Hb); tauto. }
+  destruct (x86_parallel_moves_ok im am c2 s sp ID NT VTam CE (rel_frame _ _ _ _ R)) as (s' & E2 & P1 & P2 & F' & SF).
+  exists s'. split; [exact E2|]. split; [|apply same_frame_eq; exact SF].
+  destruct R as [F0 Al Ro Ids ND0 Vals]. split; auto.
+  - unfold env_ids. rewrite <- (map_map fst idn), (bind_ids _ _ _ BD). unfold ids. now rewrite !map_map.
+  - now rewrite ids_new.
+  - intros j x v Hj.
+    destruct (bind_nth _ _ _ _ _ _ BD Hj) as (Hx & Hv).
+    rewrite nth_error_map in Hx. destruct (nth_error re j) as [pj|] eqn:Hre; [|discriminate]. cbn in Hx. inversion Hx; subst x.
+    destruct (lookups_nth e (map snd re) vs j (snd pj) LK) as (v' & Hv' & LV).
+    { now rewrite nth_error_map, Hre. }
+    assert (v' = v) by congruence. subst v'.
+    unfold lookup_id in LV. destruct (lookup_nth e _ _ LV) as (i & y & Hi & Ey).
+    destruct (env_ctx_nth c e i y v Ids Hi) as (bi & Hbi & Ebi).
+    destruct (Vals i y v Hi) as (z & ta & -> & Ta & Va).
+    (* the j-th new variable has a temporary, because the moves were emitted *)
+    destruct (all_ok x86_backend x86_backend_ok c re am NDc NDn CN Snd i bi Hbi (or_introl eq_refl)) as (a & ts & K & _).
+    assert (TJ : exists tb, xtpos Snd j = Ok tb).
+    { unfold op_kv in K. destruct (variable_temporary x86_backend Snd c (idn (bvar bi))); cbn [rbind] in K; [|discriminate].
+      destruct (rmap _ (targets re bi)) as [ts0|] eqn:RM; cbn [rbind] in K; [|discriminate].
+      apply rmap_Forall2 in RM.
+      assert (In (idn (bvar (fst pj))) (targets re bi)) as I.
+      { unfold targets. apply in_map_iff. exists pj. split; auto. apply filter_In. split.
+        - eapply nth_error_In; eauto.
+        - apply N.eqb_eq. congruence. }
+      destruct (Forall2_In_l _ _ _ _ RM I) as (tb & _ & Vy). cbn beta in Vy.
+      rewrite (vt_tpos_new x86_backend Snd re j pj NDn Hre) in Vy. eauto. }
+    destruct TJ as (tb & Tb). exists z, tb. repeat split; auto.
+    rewrite (P1 ta tb); [exact Va|]. apply EDG. exists i, j, bi, pj, Snd. repeat split; auto. congruence.
+Qed.
+End Sim3.
